@@ -71,7 +71,7 @@ ASSUMPTIONS = [
 AVOID = {
     'F41': True,    # #LINK(map#address) with a non-default AddressAnchor where the address is not converted
     'F42': False,   # (repaired in /repo) single-page mode: operand that addresses an @remote entry is linked to the current page
-    'F43': True,    # -j NAME with a StyleSheetPath directory that does not exist yet: FileNotFoundError
+    'F43': False,   # (repaired in /repo) -j NAME with a StyleSheetPath directory that does not exist yet: FileNotFoundError
     'F44': False,   # (repaired in /repo) #LINK(ListItems/BulletPoints box page#anchor)() with blank link text: ValueError
     'F45': True,    # #LINK(custom memory map) from a secondary disassembly whose entries would not appear on that map
     'F46': True,    # #R addr@id used inside disassembly id itself (e.g. #R32768@main in the main skool file): "Address not found"
